@@ -27,7 +27,9 @@ def add_dispatch(p: Program) -> list[str]:
 
     def via(cls: str, direction: str, msg: str, handler: str, arg: str,
             pty: str, self_cls: str | None = None) -> None:
-        h = p.contracts[handler]
+        h = p.contracts.get(handler)
+        if h is None:          # that handler's module is not loaded
+            return
         name = '%s.handle_message#%s.%s' % (cls, direction, msg)
         c = Contract(
             name, params=dict(HM, payload=pty),
@@ -50,6 +52,20 @@ def add_dispatch(p: Program) -> list[str]:
         'result', 'RuntimeResult')
     via('DetachedServer', 'BELOW', 'RESULT', 'DetachedServer.handle_result',
         'result', 'RuntimeResult')
+    # errors and log records of tasks reach the owning client
+    via('DetachedServer', 'BELOW', 'ERROR',
+        'DetachedServer.handle_error#tuple', 'error_payload',
+        'tuple[int, str]')
+    via('DetachedServer', 'BELOW', 'LOG', 'DetachedServer.handle_log',
+        'log_payload', 'tuple[int, Any]')
+    # batches and counter updates from below reach the scheduler
+    via('DetachedServer', 'BELOW', 'SUBMIT_BATCH',
+        'ServerBase.schedule_tasks', 'tasks', 'list[ref[RuntimeTask]]')
+    via('Manager', 'BELOW', 'SUBMIT_BATCH',
+        'Manager.send_up_or_schedule_tasks', 'tasks',
+        'list[ref[RuntimeTask]]')
+    via('Manager', 'BELOW', 'UPDATE', 'Manager.handle_update', 'task_diff',
+        'int')
     # a cancel raised by a task: the server tells every employee, a manager
     # passes it up
     for cls in ('DetachedServer',):
@@ -121,4 +137,14 @@ def bounded_dispatch(tier: str) -> dict[str, Any]:
             gen(rt.DetachedServer, 'BELOW', 'CANCEL', 'sched'),
         'Manager.handle_message#BELOW.CANCEL':
             gen(rt.Manager, 'BELOW', 'CANCEL', 'sched'),
+        'DetachedServer.handle_message#BELOW.ERROR':
+            gen(rt.DetachedServer, 'BELOW', 'ERROR', 'server'),
+        'DetachedServer.handle_message#BELOW.LOG':
+            gen(rt.DetachedServer, 'BELOW', 'LOG', 'server'),
+        'DetachedServer.handle_message#BELOW.SUBMIT_BATCH':
+            gen(rt.DetachedServer, 'BELOW', 'SUBMIT_BATCH', 'sched'),
+        'Manager.handle_message#BELOW.SUBMIT_BATCH':
+            gen(rt.Manager, 'BELOW', 'SUBMIT_BATCH', 'sched'),
+        'Manager.handle_message#BELOW.UPDATE':
+            gen(rt.Manager, 'BELOW', 'UPDATE', 'sched'),
     }
